@@ -60,6 +60,8 @@ class C26(Prop):
           "original payload again; an event sent a second time after its payload was changed in place arrives with the "
           "changed payload. Names include the characters JSON must escape (quotes, backslashes, control characters) and "
           "format-string look-alikes. "
+          "One case in eight runs 2-3 threads that each send their own event through dumps/loads 1-3 times under the deterministic scheduler "
+          "(pre-emption at every bytecode of miros/event.py): every thread gets its own name and payload back. "
           "Non-trivial: payload nesting depth >= 2, or a non-ASCII name, or a name first registered "
           "by loads; distinct = distinct (name, payload) digests.")
   assumptions = ["tuples are not generated (JSON has no tuple)", "NaN/inf are excluded by the statement"]
@@ -75,10 +77,58 @@ class C26(Prop):
                       st.text(alphabet='"\\/\n\t\r\b\f\x00\x1f ab\u2028\'', min_size=1, max_size=6),
                       st.sampled_from(['a"b', 'back\\slash', 'tab\\there', 'new\nline', '\\', '"', '\\"', '\\u0041',
                                        '%s', '{}', '{0}', '%(x)s']))
-    return st.fixed_dictionaries({"name": names, "payload": json_payload,
-                                  "foreign": st.integers(0, 2).map(lambda i: i == 0)})
+    single = st.fixed_dictionaries({"name": names, "payload": json_payload,
+                                    "foreign": st.integers(0, 2).map(lambda i: i == 0)})
+    # several threads encode and decode their own events at the same time (a bridge that serialises
+    # from more than one active object): every thread gets its own event back
+    small = st.recursive(st.one_of(st.none(), st.booleans(), st.integers(-99, 99), st.text(max_size=5)),
+                         lambda ch: st.one_of(st.lists(ch, max_size=3), st.dictionaries(st.text(max_size=3), ch, max_size=3)),
+                         max_leaves=5)
+    together = st.fixed_dictionaries({
+      "threads": st.lists(st.tuples(st.sampled_from(["VA", "VB", "VC", "ENTRY_SIGNAL", "vf_c26_x", "vf_c26_y"]), small,
+                                    st.integers(1, 3)).map(list), min_size=2, max_size=3),
+      "schedule": st.lists(st.tuples(st.integers(0, 4), st.integers(1, 12)).map(list), max_size=150)})
+    return st.one_of(single, single, single, single, single, single, single, together)
+
+  def check_together(self, case, stats):
+    from .. import detsched
+    ao = detsched.install()
+    detsched.reset(ao)
+    from miros.event import Event, signals
+    files = detsched.miros_files()
+    out = {}
+
+    def body(s):
+      def worker(k, name, payload, rounds):
+        for r in range(rounds):
+          e2 = Event.loads(Event.dumps(Event(signal=name, payload=payload)))
+          out[(k, r)] = (e2.signal_name, e2.payload, e2.signal)
+      ths = [ao.Thread(target=worker, args=(k, t[0], t[1], t[2]), name="w%d" % k) for k, t in enumerate(case["threads"])]
+      for t in ths:
+        t.start()
+      for t in ths:
+        t.join()
+    s = detsched.Scheduler(schedule=case["schedule"], step_limit=600000, opcodes=True, trace_files=[files["event"]])
+    try:
+      detsched.guarded_run(s, body)
+    except (detsched.Deadlock, detsched.StepLimit) as e:
+      raise PropertyViolation("threads that encode and decode events did not finish: %s" % e, "C26:liveness")
+    distinct = len(set(json.dumps(t[:2], sort_keys=True) for t in case["threads"])) >= 2
+    stats.case(case, distinct, ["threads_%d" % len(case["threads"])])
+    if s.thread_errors:
+      name, e, tb = s.thread_errors[0]
+      raise PropertyViolation("thread %s: raised %s: %s" % (name, type(e).__name__, e), "C26:raised")
+    for k, t in enumerate(case["threads"]):
+      for r in range(t[2]):
+        got = out.get((k, r))
+        if got is None or got[0] != t[0] or not same(got[1], t[1]) or got[2] != signals[t[0]]:
+          raise PropertyViolation("thread %d sent name %r payload %r through dumps/loads while %d other thread(s) did the "
+                                  "same with their own events: it got back %r" % (k, t[0], t[1], len(case["threads"]) - 1, got),
+                                  "C26:payload")
 
   def check(self, case, stats):
+    if "threads" in case:
+      return self.check_together(case, stats)
     from miros.event import Event, signals
     name, payload = case["name"], case["payload"]
     before = dict(signals)
